@@ -205,6 +205,7 @@ PROPS["C09"] = dict(
         dict(name="prod-dyn", src="kernel_harness.cpp", cfg="prod-dyn", env={}, args=["--prop", "C09"]),
         dict(name="asan-hsw", src="kernel_harness.cpp", cfg="asan-hsw", env=ASAN_ENV, args=["--prop", "C09"]),
         dict(name="asan-wsm", src="kernel_harness.cpp", cfg="asan-wsm", env=ASAN_ENV, args=["--prop", "C09"]),
+        dict(name="prod-dyn-nohsw", src="kernel_harness.cpp", cfg="prod-dyn+SONIC_VERIF_DISPATCH_NO_HASWELL", env={}, args=["--prop", "C09"]),
     ],
     require=["quote-calls", "quote-via-node-serialize", "placement:ends-on-last-mapped-byte", "placement:ends-1..130-bytes-before-unmapped",
              "placement:exact-heap-block", "content:escape-in-sub-vector-tail-followed-by-bytes", "audit:quote-table-entries",
@@ -245,6 +246,7 @@ PROPS["C05"] = dict(
         dict(name="asan-hsw", src="string_harness.cpp", cfg="asan-hsw", env=ASAN_ENV),
         dict(name="asan-wsm", src="string_harness.cpp", cfg="asan-wsm", env=ASAN_ENV),
         dict(name="prod-dyn", src="string_harness.cpp", cfg="prod-dyn", env={}, tiers=("thorough",)),
+        dict(name="prod-dyn-nohsw", src="string_harness.cpp", cfg="prod-dyn+SONIC_VERIF_DISPATCH_NO_HASWELL", env={}),
     ],
     require=["literal:well-formed", "literal:malformed", "role:value", "role:dom-key", "role:on-demand-key", "surrogate:valid-pair",
              "surrogate:pairing-fault", "audit:escape-table-entries", "every_u16", "every_byte"],
@@ -265,6 +267,7 @@ PROPS["C10"] = dict(
         dict(name="asan-hsw", src="ondemand_harness.cpp", cfg="asan-hsw", env=ASAN_ENV, args=["--prop", "C10"]),
         dict(name="asan-wsm", src="ondemand_harness.cpp", cfg="asan-wsm", env=ASAN_ENV, args=["--prop", "C10"]),
         dict(name="prod-dyn", src="ondemand_harness.cpp", cfg="prod-dyn", env={}, args=["--prop", "C10"]),
+        dict(name="prod-dyn-nohsw", src="ondemand_harness.cpp", cfg="prod-dyn+SONIC_VERIF_DISPATCH_NO_HASWELL", env={}, args=["--prop", "C10"]),
     ],
     require=["path:resolves", "path:does-not-resolve", "path:through-duplicate-key", "path:through-escaped-key", "path:index-into-empty-array",
              "path:negative-index", "path:wrong-kind-step", "path:missing-key", "path:index-beyond-end", "ParseOnDemand-calls"],
@@ -288,6 +291,7 @@ PROPS["C11"] = dict(
         dict(name="prod-wsm", src="ondemand_harness.cpp", cfg="prod-wsm", env={}, args=["--prop", "C11"]),
         dict(name="prod-dyn", src="ondemand_harness.cpp", cfg="prod-dyn", env={}, args=["--prop", "C11"]),
         dict(name="asanub-hsw", src="ondemand_harness.cpp", cfg="asanub-hsw", env=ASAN_NOLEAK_ENV, args=["--prop", "C11"], tiers=("thorough",)),
+        dict(name="prod-dyn-nohsw", src="ondemand_harness.cpp", cfg="prod-dyn+SONIC_VERIF_DISPATCH_NO_HASWELL", env={}, args=["--prop", "C11"]),
     ],
     require=["on-demand-calls-on-arbitrary-bytes", "result:success", "result:error", "placement:ends-on-last-mapped-byte",
              "placement:starts-after-unmapped-page", "placement:exact-heap-block", "UpdateLazy-calls", "ParseSchema-undeclared-skip-calls",
@@ -311,6 +315,7 @@ PROPS["C06"] = dict(
         dict(name="asan-hsw", src="serialize_harness.cpp", cfg="asan-hsw", env=ASAN_ENV),
         dict(name="asan-wsm", src="serialize_harness.cpp", cfg="asan-wsm", env=ASAN_ENV),
         dict(name="prod-dyn", src="serialize_harness.cpp", cfg="prod-dyn", env={}),
+        dict(name="prod-dyn-nohsw", src="serialize_harness.cpp", cfg="prod-dyn+SONIC_VERIF_DISPATCH_NO_HASWELL", env={}),
     ],
     require=["built:by-parsing", "built:through-mutation-api", "shape:duplicate-keys", "shape:scalar-root", "shape:empty-container-last-child",
              "non-finite-documents", "buffer:fresh", "buffer:explicit-small-capacity", "buffer:reused", "buffer:moved-from",
@@ -333,6 +338,7 @@ PROPS["C12"] = dict(
         dict(name="asan-hsw", src="mutation_harness.cpp", cfg="asan-hsw", env=ASAN_NOLEAK_ENV, args=["--prop", "C12"]),
         dict(name="asan-dyn", src="mutation_harness.cpp", cfg="asan-dyn", env=ASAN_NOLEAK_ENV, args=["--prop", "C12"]),
         dict(name="asanub-hsw", src="mutation_harness.cpp", cfg="asanub-hsw", env=ASAN_NOLEAK_ENV, args=["--prop", "C12"], tiers=("thorough",)),
+        dict(name="prod-hsw", src="mutation_harness.cpp", cfg="prod-hsw", env={}, args=["--prop", "C12"]),
     ],
     require=["operations-checked", "op:CreateMap", "op:DestroyMap", "op:RemoveMember(tail)-while-map-exists", "op:erase-full-or-empty-range",
              "op:growth-from-capacity-0", "op:move-assign-from-own-subnode", "op:Swap-with-own-subnode", "op:CopyFrom",
@@ -376,8 +382,10 @@ PROPS["C18"] = dict(
     runs=[
         dict(name="asan-hsw", src="mutation_harness.cpp", cfg="asan-hsw", env=ASAN_NOLEAK_ENV, args=["--prop", "C18"]),
         dict(name="prod-dyn", src="mutation_harness.cpp", cfg="prod-dyn", env={}, args=["--prop", "C18"]),
+        dict(name="prod-hsw", src="mutation_harness.cpp", cfg="prod-hsw", env={}, args=["--prop", "C18"]),
     ],
     require=["pairs:model-equal", "pairs:model-different", "triples(transitivity)", "variant:member-permuted", "variant:number-kind-changed",
+             "pairs:objects-with-long-shared-prefix-keys(map on one side)",
              "pairs:across-allocator-types", "history:null-from-moved-from-node", "history:const-strings-sharing-an-address",
              "history:lookup-map-present", "deep-copy/parse-of-dump-checks"],
     assumptions=["model equality jm::equal_unordered (objects as key->value maps, numbers by kind and bits)"],
@@ -419,6 +427,8 @@ PROPS["C20"] = dict(
         dict(name="asan-hsw", src="lazy_harness.cpp", cfg="asan-hsw", env=ASAN_ENV),
         dict(name="asan-wsm", src="lazy_harness.cpp", cfg="asan-wsm", env=ASAN_ENV),
         dict(name="prod-dyn", src="lazy_harness.cpp", cfg="prod-dyn", env={}),
+        dict(name="prod-dyn-nohsw", src="lazy_harness.cpp", cfg="prod-dyn+SONIC_VERIF_DISPATCH_NO_HASWELL", env={}),
+        dict(name="prod-hsw", src="lazy_harness.cpp", cfg="prod-hsw", env={}),
     ],
     require=["(target,source)-pairs", "pairs-with-escaped-keys", "pairs-where-one-key-is-spelled-differently-on-both-sides",
              "pairs-with-nested-object-merge(depth>=2)", "pairs-appending-new-keys", "pairs-with->=100-members", "pairs-with-whitespace",
